@@ -7,8 +7,10 @@ import (
 	"context"
 	"testing"
 
+	"github.com/ory/herodot"
 	"github.com/ory/x/otelx"
 	"github.com/ory/x/pointerx"
+	"github.com/pkg/errors"
 	"go.opentelemetry.io/otel/trace"
 
 	"github.com/ory/keto/internal/driver/config"
@@ -214,6 +216,9 @@ func (m *Mapper) FromTuple(ctx context.Context, ts ...*ketoapi.RelationTuple) (r
 
 	for _, t := range ts {
 		t := t
+		if t == nil {
+			return nil, errors.WithStack(herodot.ErrBadRequest.WithReason("relation tuple must not be null"))
+		}
 		n, err := nm.GetNamespaceByName(ctx, t.Namespace)
 		if err != nil {
 			return nil, err
